@@ -12,34 +12,34 @@
 From TeosModel Require Import Base.
 From Coq Require String Ascii.
 
-Definition bytes := list N.
-Definition str := list N.
+Definition w_bytes := list N.
+Definition w_str := list N.
 
-Definition byteb (x : N) : bool := x <? 256.
-Definition wf_bytesb (b : bytes) : bool := forallb byteb b.
-Definition U32b (z : Z) : bool := ((0 <=? z) && (z <? 4294967296))%Z.
-Definition U8b (z : Z) : bool := ((0 <=? z) && (z <? 256))%Z.
+Definition w_byteb (x : N) : bool := x <? 256.
+Definition w_wf_bytesb (b : w_bytes) : bool := forallb w_byteb b.
+Definition WU32b (z : Z) : bool := ((0 <=? z) && (z <? 4294967296))%Z.
+Definition WU8b (z : Z) : bool := ((0 <=? z) && (z <? 256))%Z.
 
 (* Coq string literal -> its bytes (names in the generated tables are ASCII) *)
-Fixpoint s2b (s : String.string) : str :=
+Fixpoint w_s2b (s : String.string) : w_str :=
   match s with
   | String.EmptyString => []
-  | String.String a r => Ascii.N_of_ascii a :: s2b r
+  | String.String a r => Ascii.N_of_ascii a :: w_s2b r
   end.
 
-Fixpoint str_eqb (a b : str) : bool :=
+Fixpoint w_str_eqb (a b : w_str) : bool :=
   match a, b with
   | [], [] => true
-  | x :: a', y :: b' => N.eqb x y && str_eqb a' b'
+  | x :: a', y :: b' => N.eqb x y && w_str_eqb a' b'
   | _, _ => false
   end.
 
-Definition mem_str (s : str) (l : list str) : bool := existsb (str_eqb s) l.
+Definition w_mem_str (s : w_str) (l : list w_str) : bool := existsb (w_str_eqb s) l.
 
-Fixpoint nodup_strb (l : list str) : bool :=
+Fixpoint w_nodup_strb (l : list w_str) : bool :=
   match l with
   | [] => true
-  | x :: r => negb (mem_str x r) && nodup_strb r
+  | x :: r => negb (w_mem_str x r) && w_nodup_strb r
   end.
 
 (* ------------------------------------------------------------------------------------------ *)
@@ -47,52 +47,52 @@ Fixpoint nodup_strb (l : list str) : bool :=
 (* ------------------------------------------------------------------------------------------ *)
 
 (* hex::encode: b"0123456789abcdef"[nibble] *)
-Definition hex_digit (d : N) : N := if d <? 10 then 48 + d else 87 + d.
+Definition w_hex_digit (d : N) : N := if d <? 10 then 48 + d else 87 + d.
 
 (* hex::decode's `val`: b'A'..=b'F' | b'a'..=b'f' | b'0'..=b'9', anything else InvalidHexCharacter *)
-Definition hex_val (c : N) : option N :=
+Definition w_hex_val (c : N) : option N :=
   if (48 <=? c) && (c <=? 57) then Some (c - 48)
   else if (97 <=? c) && (c <=? 102) then Some (c - 87)
   else if (65 <=? c) && (c <=? 70) then Some (c - 55)
   else None.
 
-Fixpoint hex_encode (b : bytes) : str :=
+Fixpoint w_hex_encode (b : w_bytes) : w_str :=
   match b with
   | [] => []
-  | x :: r => hex_digit (x / 16) :: hex_digit (x mod 16) :: hex_encode r
+  | x :: r => w_hex_digit (x / 16) :: w_hex_digit (x mod 16) :: w_hex_encode r
   end.
 
 (* None = FromHexError (OddLength or InvalidHexCharacter) *)
-Fixpoint hex_decode (s : str) : option bytes :=
+Fixpoint w_hex_decode (s : w_str) : option w_bytes :=
   match s with
   | [] => Some []
   | [_] => None
   | h :: l :: r =>
-    match hex_val h, hex_val l, hex_decode r with
+    match w_hex_val h, w_hex_val l, w_hex_decode r with
     | Some a, Some b, Some t => Some (16 * a + b :: t)
     | _, _, _ => None
     end
   end.
 
 (* serde_be: the byte string reversed, then hex (how txids are displayed) *)
-Definition behex_encode (b : bytes) : str := hex_encode (rev b).
-Definition behex_decode (s : str) : option bytes := option_map (@rev N) (hex_decode s).
+Definition w_behex_encode (b : w_bytes) : w_str := w_hex_encode (rev b).
+Definition w_behex_decode (s : w_str) : option w_bytes := option_map (@rev N) (w_hex_decode s).
 
-Definition is_lower_hexb (s : str) : bool :=
+Definition w_is_lower_hexb (s : w_str) : bool :=
   forallb (fun c => ((48 <=? c) && (c <=? 57)) || ((97 <=? c) && (c <=? 102))) s.
 
-Definition to_upper (c : N) : N := if (97 <=? c) && (c <=? 122) then c - 32 else c.
+Definition w_to_upper (c : N) : N := if (97 <=? c) && (c <=? 122) then c - 32 else c.
 
 (* ------------------------------------------------------------------------------------------ *)
 (* big-endian u32 and the signed layouts                                                      *)
 (* ------------------------------------------------------------------------------------------ *)
 
 (* u32::to_be_bytes *)
-Definition be32 (n : N) : bytes :=
+Definition w_be32 (n : N) : w_bytes :=
   [(n / 16777216) mod 256; (n / 65536) mod 256; (n / 256) mod 256; n mod 256].
-Definition le32 (n : N) : bytes := rev (be32 n).
+Definition w_le32 (n : N) : w_bytes := rev (w_be32 n).
 
-Definition be32_decode (b : bytes) : option N :=
+Definition w_be32_decode (b : w_bytes) : option N :=
   match b with
   | [a; b; c; d] => Some (a * 16777216 + b * 65536 + c * 256 + d)
   | _ => None
@@ -101,82 +101,82 @@ Definition be32_decode (b : bytes) : option N :=
 (* One item of a `to_vec` layout: a byte field whose Rust type has a fixed width (Locator =
    [u8; LOCATOR_LEN], UserId = compressed public key), a variable-width byte field (Vec<u8>,
    String::as_bytes), or a u32 written with to_be_bytes / to_le_bytes. *)
-Inductive litem := LFixed (w : nat) | LVar | LBE32 | LLE32.
-Inductive lval := LVBytes (b : bytes) | LVNum (n : N).
-Definition layout := list (str * litem).
+Inductive w_litem := WLFixed (w : nat) | WLVar | WLBE32 | WLLE32.
+Inductive w_lval := WLVBytes (b : w_bytes) | WLVNum (n : N).
+Definition w_layout := list (w_str * w_litem).
 
-Definition litem_encode (it : litem) (v : lval) : bytes :=
+Definition w_litem_encode (it : w_litem) (v : w_lval) : w_bytes :=
   match it, v with
-  | LFixed _, LVBytes b => b
-  | LVar, LVBytes b => b
-  | LBE32, LVNum n => be32 n
-  | LLE32, LVNum n => le32 n
+  | WLFixed _, WLVBytes b => b
+  | WLVar, WLVBytes b => b
+  | WLBE32, WLVNum n => w_be32 n
+  | WLLE32, WLVNum n => w_le32 n
   | _, _ => []
   end.
 
-Fixpoint layout_encode (l : layout) (vs : list lval) : bytes :=
+Fixpoint w_layout_encode (l : w_layout) (vs : list w_lval) : w_bytes :=
   match l, vs with
-  | (_, it) :: l', v :: vs' => litem_encode it v ++ layout_encode l' vs'
+  | (_, it) :: l', v :: vs' => w_litem_encode it v ++ w_layout_encode l' vs'
   | _, _ => []
   end.
 
 (* what the Rust types guarantee about a field value *)
-Definition lval_okb (it : litem) (v : lval) : bool :=
+Definition w_lval_okb (it : w_litem) (v : w_lval) : bool :=
   match it, v with
-  | LFixed w, LVBytes b => Nat.eqb (length b) w
-  | LVar, LVBytes _ => true
-  | LBE32, LVNum n => n <? 4294967296
-  | LLE32, LVNum n => n <? 4294967296
+  | WLFixed w, WLVBytes b => Nat.eqb (length b) w
+  | WLVar, WLVBytes _ => true
+  | WLBE32, WLVNum n => n <? 4294967296
+  | WLLE32, WLVNum n => n <? 4294967296
   | _, _ => false
   end.
 
-Fixpoint layout_okb (l : layout) (vs : list lval) : bool :=
+Fixpoint w_layout_okb (l : w_layout) (vs : list w_lval) : bool :=
   match l, vs with
   | [], [] => true
-  | (_, it) :: l', v :: vs' => lval_okb it v && layout_okb l' vs'
+  | (_, it) :: l', v :: vs' => w_lval_okb it v && w_layout_okb l' vs'
   | _, _ => false
   end.
 
-Definition is_var (it : litem) : bool := match it with LVar => true | _ => false end.
-Definition count_var (l : layout) : nat := length (filter (fun f => is_var (snd f)) l).
+Definition w_is_var (it : w_litem) : bool := match it with WLVar => true | _ => false end.
+Definition w_count_var (l : w_layout) : nat := length (filter (fun f => w_is_var (snd f)) l).
 (* the side condition of injectivity: at most one field of variable width *)
-Definition layout_unambiguousb (l : layout) : bool := Nat.leb (count_var l) 1.
+Definition w_layout_unambiguousb (l : w_layout) : bool := Nat.leb (w_count_var l) 1.
 
 (* The request-signing messages: format!("get appointment {}", locator) with Locator's Display
    (= lower-case hex), and the literal "get subscription info". *)
-Definition sign_msg_get_appointment (prefix : str) (locator : bytes) : bytes := prefix ++ hex_encode locator.
+Definition w_sign_msg_get_appointment (prefix : w_str) (locator : w_bytes) : w_bytes := prefix ++ w_hex_encode locator.
 
 (* ------------------------------------------------------------------------------------------ *)
 (* JSON values and serde_json's compact printer                                               *)
 (* ------------------------------------------------------------------------------------------ *)
 
-Inductive json :=
+Inductive w_json :=
 | JNull
 | JBool (b : bool)
 | JNum (z : Z)
-| JStr (s : str)
-| JArr (l : list json)
-| JObj (l : list (str * json)).
+| JStr (s : w_str)
+| JArr (l : list w_json)
+| JObj (l : list (w_str * w_json)).
 
-Fixpoint dec_aux (fuel : nat) (n : N) (acc : str) : str :=
+Fixpoint w_dec_aux (fuel : nat) (n : N) (acc : w_str) : w_str :=
   match fuel with
   | O => acc
   | S f =>
     let acc' := (48 + n mod 10) :: acc in
-    if n / 10 =? 0 then acc' else dec_aux f (n / 10) acc'
+    if n / 10 =? 0 then acc' else w_dec_aux f (n / 10) acc'
   end.
 (* decimal digits of n (itoa) *)
-Definition dec_of_N (n : N) : str := dec_aux (S (N.size_nat n)) n [].
-Definition dec_of_Z (z : Z) : str :=
+Definition w_dec_of_N (n : N) : w_str := w_dec_aux (S (N.size_nat n)) n [].
+Definition w_dec_of_Z (z : Z) : w_str :=
   match z with
-  | Zneg p => 45 :: dec_of_N (Npos p)
-  | _ => dec_of_N (Z.to_N z)
+  | Zneg p => 45 :: w_dec_of_N (Npos p)
+  | _ => w_dec_of_N (Z.to_N z)
   end.
 
 (* serde_json::ser::format_escaped_str: the double quote (34), the backslash (92) and the control
    characters are escaped (backslash + b f n r t, or u00xx in lower case); every other byte,
    including 0x7f and non-ASCII UTF-8, is copied *)
-Definition esc_byte (c : N) : str :=
+Definition w_esc_byte (c : N) : w_str :=
   if c =? 34 then [92; 34]
   else if c =? 92 then [92; 92]
   else if c =? 8 then [92; 98]
@@ -184,36 +184,36 @@ Definition esc_byte (c : N) : str :=
   else if c =? 10 then [92; 110]
   else if c =? 13 then [92; 114]
   else if c =? 9 then [92; 116]
-  else if c <? 32 then [92; 117; 48; 48; hex_digit (c / 16); hex_digit (c mod 16)]
+  else if c <? 32 then [92; 117; 48; 48; w_hex_digit (c / 16); w_hex_digit (c mod 16)]
   else [c].
-Definition json_str (s : str) : str := 34 :: flat_map esc_byte s ++ [34].
+Definition w_json_str (s : w_str) : w_str := 34 :: flat_map w_esc_byte s ++ [34].
 
-Fixpoint json_print (j : json) : str :=
+Fixpoint w_json_print (j : w_json) : w_str :=
   match j with
   | JNull => [110; 117; 108; 108]
   | JBool true => [116; 114; 117; 101]
   | JBool false => [102; 97; 108; 115; 101]
-  | JNum z => dec_of_Z z
-  | JStr s => json_str s
+  | JNum z => w_dec_of_Z z
+  | JStr s => w_json_str s
   | JArr l =>
-    91 :: (fix go (l : list json) : str :=
+    91 :: (fix go (l : list w_json) : w_str :=
              match l with
              | [] => []
-             | x :: r => json_print x ++ match r with [] => [] | _ => 44 :: go r end
+             | x :: r => w_json_print x ++ match r with [] => [] | _ => 44 :: go r end
              end) l ++ [93]
   | JObj l =>
-    123 :: (fix go (l : list (str * json)) : str :=
+    123 :: (fix go (l : list (w_str * w_json)) : w_str :=
               match l with
               | [] => []
-              | (k, v) :: r => json_str k ++ 58 :: json_print v ++ match r with [] => [] | _ => 44 :: go r end
+              | (k, v) :: r => w_json_str k ++ 58 :: w_json_print v ++ match r with [] => [] | _ => 44 :: go r end
               end) l ++ [125]
   end.
 
 (* all the values bound to a key, in order of appearance (a JSON object may repeat a key) *)
-Fixpoint find_all (name : str) (o : list (str * json)) : list json :=
+Fixpoint w_find_all (name : w_str) (o : list (w_str * w_json)) : list w_json :=
   match o with
   | [] => []
-  | (k, v) :: r => if str_eqb name k then v :: find_all name r else find_all name r
+  | (k, v) :: r => if w_str_eqb name k then v :: w_find_all name r else w_find_all name r
   end.
 
 (* ------------------------------------------------------------------------------------------ *)
@@ -232,141 +232,141 @@ Fixpoint find_all (name : str) (o : list (str * json)) : list json :=
      KOptMsg m Option<M> (no attribute)                          null | object; may be absent
    and a message is either a plain struct or a struct whose only field is
    `#[serde(flatten)] Option<untagged enum of messages>` (AppointmentData). *)
-Inductive kind :=
+Inductive w_kind :=
 | KHex | KHexBE | KVecHex | KStatus | KU32 | KU8 | KStr | KBytesArr
-| KOptMsg (m : msg)
-with msg :=
-| MStruct (fs : fields)
-| MFlatOneof (vs : msgs)
-with fields :=
-| FNil
-| FCons (name : str) (k : kind) (rest : fields)
-with msgs :=
-| MNil
-| MCons (m : msg) (rest : msgs).
+| KOptMsg (m : w_msg)
+with w_msg :=
+| WMStruct (fs : w_fields)
+| WMFlatOneof (vs : w_msgs)
+with w_fields :=
+| WFNil
+| WFCons (name : w_str) (k : w_kind) (rest : w_fields)
+with w_msgs :=
+| WMNil
+| WMCons (m : w_msg) (rest : w_msgs).
 
-Fixpoint flist (l : list (str * kind)) : fields :=
-  match l with [] => FNil | (n, k) :: r => FCons n k (flist r) end.
-Fixpoint mlist (l : list msg) : msgs :=
-  match l with [] => MNil | m :: r => MCons m (mlist r) end.
+Fixpoint w_flist (l : list (w_str * w_kind)) : w_fields :=
+  match l with [] => WFNil | (n, k) :: r => WFCons n k (w_flist r) end.
+Fixpoint w_mlist (l : list w_msg) : w_msgs :=
+  match l with [] => WMNil | m :: r => WMCons m (w_mlist r) end.
 
-Inductive val :=
-| VBytes (b : bytes)
-| VVec (l : list bytes)
-| VNum (n : Z)
-| VStr (s : str)
-| VNone
-| VSome (m : mval)
-with mval :=
-| MVStruct (vs : vals)
-| MVOneofNone
-| MVOneof (i : nat) (m : mval)      (* i-th variant of the untagged enum *)
-with vals :=
-| VNil
-| VCons (v : val) (rest : vals).
+Inductive w_val :=
+| WVBytes (b : w_bytes)
+| WVVec (l : list w_bytes)
+| WVNum (n : Z)
+| WVStr (s : w_str)
+| WVNone
+| WVSome (m : w_mval)
+with w_mval :=
+| WMVStruct (vs : w_vals)
+| WMVOneofNone
+| WMVOneof (i : nat) (m : w_mval)      (* i-th variant of the untagged enum *)
+with w_vals :=
+| WVNil
+| WVCons (v : w_val) (rest : w_vals).
 
-Fixpoint vlist (l : list val) : vals :=
-  match l with [] => VNil | v :: r => VCons v (vlist r) end.
+Fixpoint w_vlist (l : list w_val) : w_vals :=
+  match l with [] => WVNil | v :: r => WVCons v (w_vlist r) end.
 
-Fixpoint field_names (fs : fields) : list str :=
-  match fs with FNil => [] | FCons n _ r => n :: field_names r end.
+Fixpoint w_field_names (fs : w_fields) : list w_str :=
+  match fs with WFNil => [] | WFCons n _ r => n :: w_field_names r end.
 
-Definition is_optional (k : kind) : bool := match k with KOptMsg _ => true | _ => false end.
+Definition w_is_optional (k : w_kind) : bool := match k with KOptMsg _ => true | _ => false end.
 
 (* names of the fields serde requires to be present *)
-Fixpoint required_names (fs : fields) : list str :=
+Fixpoint w_required_names (fs : w_fields) : list w_str :=
   match fs with
-  | FNil => []
-  | FCons n k r => if is_optional k then required_names r else n :: required_names r
+  | WFNil => []
+  | WFCons n k r => if w_is_optional k then w_required_names r else n :: w_required_names r
   end.
 
 (* The AppointmentStatus tables of teos-common/src/appointment.rs (generated). *)
-Record status_table := mk_status_table {
-  st_variants : list (str * Z);     (* enum AppointmentStatus { Variant = discriminant } *)
-  st_from_i32 : list (Z * str);     (* impl From<i32>: literal arms *)
-  st_from_i32_default : str;        (*                 the `_ =>` arm *)
-  st_from_str : list (str * str);   (* impl FromStr: "name" => Variant *)
-  st_display : list (str * str)     (* impl Display: Variant => "name" *)
+Record w_status_table := w_mk_status_table {
+  w_st_variants : list (w_str * Z);     (* enum AppointmentStatus { Variant = discriminant } *)
+  w_st_from_i32 : list (Z * w_str);     (* impl From<i32>: literal arms *)
+  w_st_from_i32_default : w_str;        (*                 the `_ =>` arm *)
+  w_st_from_str : list (w_str * w_str);   (* impl FromStr: "name" => Variant *)
+  w_st_display : list (w_str * w_str)     (* impl Display: Variant => "name" *)
 }.
 
-Fixpoint assoc_str {A} (k : str) (l : list (str * A)) : option A :=
+Fixpoint w_assoc_str {A} (k : w_str) (l : list (w_str * A)) : option A :=
   match l with
   | [] => None
-  | (k', v) :: r => if str_eqb k k' then Some v else assoc_str k r
+  | (k', v) :: r => if w_str_eqb k k' then Some v else w_assoc_str k r
   end.
 
-Fixpoint assoc_Z {A} (k : Z) (l : list (Z * A)) : option A :=
+Fixpoint w_assoc_Z {A} (k : Z) (l : list (Z * A)) : option A :=
   match l with
   | [] => None
-  | (k', v) :: r => if Z.eqb k k' then Some v else assoc_Z k r
+  | (k', v) :: r => if Z.eqb k k' then Some v else w_assoc_Z k r
   end.
 
 Section Codec.
-  Context (T : status_table).
+  Context (T : w_status_table).
 
   (* serde_status::serialize: AppointmentStatus::from(i32).to_string() *)
-  Definition status_variant_of_i32 (n : Z) : str :=
-    match assoc_Z n (st_from_i32 T) with Some v => v | None => st_from_i32_default T end.
-  Definition status_emit (n : Z) : str :=
-    match assoc_str (status_variant_of_i32 n) (st_display T) with Some s => s | None => [] end.
+  Definition w_status_variant_of_i32 (n : Z) : w_str :=
+    match w_assoc_Z n (w_st_from_i32 T) with Some v => v | None => w_st_from_i32_default T end.
+  Definition w_status_emit (n : Z) : w_str :=
+    match w_assoc_str (w_status_variant_of_i32 n) (w_st_display T) with Some s => s | None => [] end.
   (* serde_status::deserialize: AppointmentStatus::from_str(v)? as i32 *)
-  Definition status_parse (s : str) : option Z :=
-    match assoc_str s (st_from_str T) with
-    | Some v => assoc_str v (st_variants T)
+  Definition w_status_parse (s : w_str) : option Z :=
+    match w_assoc_str s (w_st_from_str T) with
+    | Some v => w_assoc_str v (w_st_variants T)
     | None => None
     end.
 
   (* ---------------- serialisation (serde::Serialize into a JSON value) ---------------- *)
-  Fixpoint enc_kind (k : kind) (v : val) : json :=
+  Fixpoint w_enc_kind (k : w_kind) (v : w_val) : w_json :=
     match k, v with
-    | KHex, VBytes b => JStr (hex_encode b)
-    | KHexBE, VBytes b => JStr (behex_encode b)
-    | KVecHex, VVec l => JArr (map (fun b => JStr (hex_encode b)) l)
-    | KStatus, VNum n => JStr (status_emit n)
-    | KU32, VNum n => JNum n
-    | KU8, VNum n => JNum n
-    | KStr, VStr s => JStr s
-    | KBytesArr, VBytes b => JArr (map (fun x => JNum (Z.of_N x)) b)
-    | KOptMsg m, VSome mv => enc_msg m mv
-    | KOptMsg m, VNone => JNull
+    | KHex, WVBytes b => JStr (w_hex_encode b)
+    | KHexBE, WVBytes b => JStr (w_behex_encode b)
+    | KVecHex, WVVec l => JArr (map (fun b => JStr (w_hex_encode b)) l)
+    | KStatus, WVNum n => JStr (w_status_emit n)
+    | KU32, WVNum n => JNum n
+    | KU8, WVNum n => JNum n
+    | KStr, WVStr s => JStr s
+    | KBytesArr, WVBytes b => JArr (map (fun x => JNum (Z.of_N x)) b)
+    | KOptMsg m, WVSome mv => w_enc_msg m mv
+    | KOptMsg m, WVNone => JNull
     | _, _ => JNull                                    (* ill-typed: excluded by typed_*b *)
     end
-  with enc_msg (m : msg) (mv : mval) : json :=
+  with w_enc_msg (m : w_msg) (mv : w_mval) : w_json :=
     match m, mv with
-    | MStruct fs, MVStruct vs => JObj (enc_fields fs vs)
-    | MFlatOneof ms, MVOneofNone => JObj []            (* flatten of None writes no entry *)
-    | MFlatOneof ms, MVOneof i mv' => enc_variant ms i mv'   (* the variant's own entries *)
+    | WMStruct fs, WMVStruct vs => JObj (w_enc_fields fs vs)
+    | WMFlatOneof ms, WMVOneofNone => JObj []            (* flatten of None writes no entry *)
+    | WMFlatOneof ms, WMVOneof i mv' => w_enc_variant ms i mv'   (* the variant's own entries *)
     | _, _ => JNull
     end
-  with enc_fields (fs : fields) (vs : vals) : list (str * json) :=
+  with w_enc_fields (fs : w_fields) (vs : w_vals) : list (w_str * w_json) :=
     match fs, vs with
-    | FCons name k r, VCons v vr => (name, enc_kind k v) :: enc_fields r vr
+    | WFCons name k r, WVCons v vr => (name, w_enc_kind k v) :: w_enc_fields r vr
     | _, _ => []
     end
-  with enc_variant (ms : msgs) (i : nat) (mv : mval) : json :=
+  with w_enc_variant (ms : w_msgs) (i : nat) (mv : w_mval) : w_json :=
     match ms with
-    | MNil => JNull
-    | MCons m r => match i with O => enc_msg m mv | S i' => enc_variant r i' mv end
+    | WMNil => JNull
+    | WMCons m r => match i with O => w_enc_msg m mv | S i' => w_enc_variant r i' mv end
     end.
 
   (* ---------------- deserialisation (serde::Deserialize from a JSON value) ---------------- *)
-  Fixpoint dec_hex_list (l : list json) : option (list bytes) :=
+  Fixpoint w_dec_hex_list (l : list w_json) : option (list w_bytes) :=
     match l with
     | [] => Some []
     | JStr s :: r =>
-      match hex_decode s, dec_hex_list r with
+      match w_hex_decode s, w_dec_hex_list r with
       | Some b, Some t => Some (b :: t)
       | _, _ => None
       end
     | _ :: _ => None
     end.
 
-  Fixpoint dec_u8_list (l : list json) : option bytes :=
+  Fixpoint w_dec_u8_list (l : list w_json) : option w_bytes :=
     match l with
     | [] => Some []
     | JNum z :: r =>
-      match dec_u8_list r with
-      | Some t => if U8b z then Some (Z.to_N z :: t) else None
+      match w_dec_u8_list r with
+      | Some t => if WU8b z then Some (Z.to_N z :: t) else None
       | None => None
       end
     | _ :: _ => None
@@ -376,148 +376,148 @@ Section Codec.
      twice is `duplicate field`; an absent key is `missing field` unless the Rust type is Option
      (then None); keys the struct does not know are ignored.
      seq form (a JSON array is accepted by deserialize_struct): positional, exact length. *)
-  Fixpoint dec_kind (k : kind) (j : json) : option val :=
+  Fixpoint w_dec_kind (k : w_kind) (j : w_json) : option w_val :=
     match k with
-    | KHex => match j with JStr s => option_map VBytes (hex_decode s) | _ => None end
-    | KHexBE => match j with JStr s => option_map VBytes (behex_decode s) | _ => None end
-    | KVecHex => match j with JArr l => option_map VVec (dec_hex_list l) | _ => None end
-    | KStatus => match j with JStr s => option_map VNum (status_parse s) | _ => None end
-    | KU32 => match j with JNum z => if U32b z then Some (VNum z) else None | _ => None end
-    | KU8 => match j with JNum z => if U8b z then Some (VNum z) else None | _ => None end
-    | KStr => match j with JStr s => Some (VStr s) | _ => None end
-    | KBytesArr => match j with JArr l => option_map VBytes (dec_u8_list l) | _ => None end
-    | KOptMsg m => match j with JNull => Some VNone | _ => option_map VSome (dec_msg m j) end
+    | KHex => match j with JStr s => option_map WVBytes (w_hex_decode s) | _ => None end
+    | KHexBE => match j with JStr s => option_map WVBytes (w_behex_decode s) | _ => None end
+    | KVecHex => match j with JArr l => option_map WVVec (w_dec_hex_list l) | _ => None end
+    | KStatus => match j with JStr s => option_map WVNum (w_status_parse s) | _ => None end
+    | KU32 => match j with JNum z => if WU32b z then Some (WVNum z) else None | _ => None end
+    | KU8 => match j with JNum z => if WU8b z then Some (WVNum z) else None | _ => None end
+    | KStr => match j with JStr s => Some (WVStr s) | _ => None end
+    | KBytesArr => match j with JArr l => option_map WVBytes (w_dec_u8_list l) | _ => None end
+    | KOptMsg m => match j with JNull => Some WVNone | _ => option_map WVSome (w_dec_msg m j) end
     end
-  with dec_msg (m : msg) (j : json) : option mval :=
+  with w_dec_msg (m : w_msg) (j : w_json) : option w_mval :=
     match m with
-    | MStruct fs =>
+    | WMStruct fs =>
       match j with
-      | JObj o => option_map MVStruct (dec_fields fs o)
-      | JArr l => option_map MVStruct (dec_fields_seq fs l)
+      | JObj o => option_map WMVStruct (w_dec_fields fs o)
+      | JArr l => option_map WMVStruct (w_dec_fields_seq fs l)
       | _ => None
       end
-    | MFlatOneof ms =>
+    | WMFlatOneof ms =>
       (* deserialize_map; all entries are collected and handed to Option<untagged enum>, which
          is None when no variant matches (FlatMapDeserializer::deserialize_option) *)
       match j with
-      | JObj o => Some (dec_first ms (JObj o) 0)
+      | JObj o => Some (w_dec_first ms (JObj o) 0)
       | _ => None
       end
     end
-  with dec_fields (fs : fields) (o : list (str * json)) : option vals :=
+  with w_dec_fields (fs : w_fields) (o : list (w_str * w_json)) : option w_vals :=
     match fs with
-    | FNil => Some VNil
-    | FCons name k r =>
+    | WFNil => Some WVNil
+    | WFCons name k r =>
       match
-        match find_all name o with
-        | [] => if is_optional k then Some VNone else None
-        | [j] => dec_kind k j
+        match w_find_all name o with
+        | [] => if w_is_optional k then Some WVNone else None
+        | [j] => w_dec_kind k j
         | _ :: _ :: _ => None
         end
       with
-      | Some v => match dec_fields r o with Some vr => Some (VCons v vr) | None => None end
+      | Some v => match w_dec_fields r o with Some vr => Some (WVCons v vr) | None => None end
       | None => None
       end
     end
-  with dec_fields_seq (fs : fields) (l : list json) : option vals :=
+  with w_dec_fields_seq (fs : w_fields) (l : list w_json) : option w_vals :=
     match fs with
-    | FNil => match l with [] => Some VNil | _ :: _ => None end
-    | FCons name k r =>
+    | WFNil => match l with [] => Some WVNil | _ :: _ => None end
+    | WFCons name k r =>
       match l with
       | [] => None
       | j :: l' =>
-        match dec_kind k j with
-        | Some v => match dec_fields_seq r l' with Some vr => Some (VCons v vr) | None => None end
+        match w_dec_kind k j with
+        | Some v => match w_dec_fields_seq r l' with Some vr => Some (WVCons v vr) | None => None end
         | None => None
         end
       end
     end
   (* untagged enum: the first variant that deserialises wins *)
-  with dec_first (ms : msgs) (j : json) (i : nat) : mval :=
+  with w_dec_first (ms : w_msgs) (j : w_json) (i : nat) : w_mval :=
     match ms with
-    | MNil => MVOneofNone
-    | MCons m r =>
-      match dec_msg m j with
-      | Some mv => MVOneof i mv
-      | None => dec_first r j (S i)
+    | WMNil => WMVOneofNone
+    | WMCons m r =>
+      match w_dec_msg m j with
+      | Some mv => WMVOneof i mv
+      | None => w_dec_first r j (S i)
       end
     end.
 
   (* ---------------- typing: the values a Rust message of that shape can hold ---------------- *)
-  Fixpoint typed_kindb (k : kind) (v : val) : bool :=
+  Fixpoint w_typed_kindb (k : w_kind) (v : w_val) : bool :=
     match k, v with
-    | KHex, VBytes b => wf_bytesb b
-    | KHexBE, VBytes b => wf_bytesb b
-    | KBytesArr, VBytes b => wf_bytesb b
-    | KVecHex, VVec l => forallb wf_bytesb l
+    | KHex, WVBytes b => w_wf_bytesb b
+    | KHexBE, WVBytes b => w_wf_bytesb b
+    | KBytesArr, WVBytes b => w_wf_bytesb b
+    | KVecHex, WVVec l => forallb w_wf_bytesb l
     (* the i32 carried by a status field is one of the enum's discriminants *)
-    | KStatus, VNum n => match status_parse (status_emit n) with Some n' => Z.eqb n n' | None => false end
-    | KU32, VNum n => U32b n
-    | KU8, VNum n => U8b n
-    | KStr, VStr _ => true
-    | KOptMsg m, VNone => true
-    | KOptMsg m, VSome mv => typed_msgb m mv
+    | KStatus, WVNum n => match w_status_parse (w_status_emit n) with Some n' => Z.eqb n n' | None => false end
+    | KU32, WVNum n => WU32b n
+    | KU8, WVNum n => WU8b n
+    | KStr, WVStr _ => true
+    | KOptMsg m, WVNone => true
+    | KOptMsg m, WVSome mv => w_typed_msgb m mv
     | _, _ => false
     end
-  with typed_msgb (m : msg) (mv : mval) : bool :=
+  with w_typed_msgb (m : w_msg) (mv : w_mval) : bool :=
     match m, mv with
-    | MStruct fs, MVStruct vs => typed_fieldsb fs vs
-    | MFlatOneof ms, MVOneofNone => true
-    | MFlatOneof ms, MVOneof i mv' => typed_variantb ms i mv'
+    | WMStruct fs, WMVStruct vs => w_typed_fieldsb fs vs
+    | WMFlatOneof ms, WMVOneofNone => true
+    | WMFlatOneof ms, WMVOneof i mv' => w_typed_variantb ms i mv'
     | _, _ => false
     end
-  with typed_fieldsb (fs : fields) (vs : vals) : bool :=
+  with w_typed_fieldsb (fs : w_fields) (vs : w_vals) : bool :=
     match fs, vs with
-    | FNil, VNil => true
-    | FCons _ k r, VCons v vr => typed_kindb k v && typed_fieldsb r vr
+    | WFNil, WVNil => true
+    | WFCons _ k r, WVCons v vr => w_typed_kindb k v && w_typed_fieldsb r vr
     | _, _ => false
     end
-  with typed_variantb (ms : msgs) (i : nat) (mv : mval) : bool :=
+  with w_typed_variantb (ms : w_msgs) (i : nat) (mv : w_mval) : bool :=
     match ms with
-    | MNil => false
-    | MCons m r => match i with O => typed_msgb m mv | S i' => typed_variantb r i' mv end
+    | WMNil => false
+    | WMCons m r => match i with O => w_typed_msgb m mv | S i' => w_typed_variantb r i' mv end
     end.
 End Codec.
 
 (* ---------------- well-formedness of a shape: what makes parsing unambiguous ---------------- *)
-Definition struct_fields (m : msg) : option fields :=
-  match m with MStruct fs => Some fs | MFlatOneof _ => None end.
+Definition w_struct_fields (m : w_msg) : option w_fields :=
+  match m with WMStruct fs => Some fs | WMFlatOneof _ => None end.
 
 (* variant a (tried first) cannot swallow an emission of variant b: a requires a key b never writes *)
-Definition distinguishableb (a b : msg) : bool :=
+Definition w_distinguishableb (a b : w_msg) : bool :=
   match a, b with
-  | MStruct fa, MStruct fb => existsb (fun n => negb (mem_str n (field_names fb))) (required_names fa)
+  | WMStruct fa, WMStruct fb => existsb (fun n => negb (w_mem_str n (w_field_names fb))) (w_required_names fa)
   | _, _ => false
   end.
 
-Definition has_requiredb (m : msg) : bool :=
+Definition w_has_requiredb (m : w_msg) : bool :=
   match m with
-  | MStruct fs => match required_names fs with [] => false | _ :: _ => true end
-  | MFlatOneof _ => false
+  | WMStruct fs => match w_required_names fs with [] => false | _ :: _ => true end
+  | WMFlatOneof _ => false
   end.
 
-Fixpoint forall_msgs (p : msg -> bool) (ms : msgs) : bool :=
-  match ms with MNil => true | MCons m r => p m && forall_msgs p r end.
+Fixpoint w_forall_msgs (p : w_msg -> bool) (ms : w_msgs) : bool :=
+  match ms with WMNil => true | WMCons m r => p m && w_forall_msgs p r end.
 
-Fixpoint wf_kindb (k : kind) : bool :=
+Fixpoint w_wf_kindb (k : w_kind) : bool :=
   match k with
-  | KOptMsg m => wf_msgb m
+  | KOptMsg m => w_wf_msgb m
   | _ => true
   end
-with wf_msgb (m : msg) : bool :=
+with w_wf_msgb (m : w_msg) : bool :=
   match m with
-  | MStruct fs => nodup_strb (field_names fs) && wf_fieldsb fs
-  | MFlatOneof ms => wf_variantsb ms
+  | WMStruct fs => w_nodup_strb (w_field_names fs) && w_wf_fieldsb fs
+  | WMFlatOneof ms => w_wf_variantsb ms
   end
-with wf_fieldsb (fs : fields) : bool :=
+with w_wf_fieldsb (fs : w_fields) : bool :=
   match fs with
-  | FNil => true
-  | FCons _ k r => wf_kindb k && wf_fieldsb r
+  | WFNil => true
+  | WFCons _ k r => w_wf_kindb k && w_wf_fieldsb r
   end
-with wf_variantsb (ms : msgs) : bool :=
+with w_wf_variantsb (ms : w_msgs) : bool :=
   match ms with
-  | MNil => true
-  | MCons m r => wf_msgb m && has_requiredb m && forall_msgs (distinguishableb m) r && wf_variantsb r
+  | WMNil => true
+  | WMCons m r => w_wf_msgb m && w_has_requiredb m && w_forall_msgs (w_distinguishableb m) r && w_wf_variantsb r
   end.
 
 (* ------------------------------------------------------------------------------------------ *)
@@ -528,34 +528,34 @@ with wf_variantsb (ms : msgs) : bool :=
      X = ApiResponse<T> (untagged, variants in the generated order):  Response / Error / no match
      X = T:                                                           Response / no match
    "no match" is RequestError::DeserializeError *)
-Inductive creply := CResponse (r : mval) | CError (e : mval) | CDeserializeError.
+Inductive w_creply := WCResponse (r : w_mval) | WCError (e : w_mval) | WCDeserializeError.
 
-Inductive api_variant := AVResponse | AVError.
+Inductive w_api_variant := WAVResponse | WAVError.
 
 Section Client.
-  Context (T : status_table).
+  Context (T : w_status_table).
 
-  Fixpoint dec_untagged (order : list api_variant) (resp err : msg) (j : json) : creply :=
+  Fixpoint w_dec_untagged (order : list w_api_variant) (resp err : w_msg) (j : w_json) : w_creply :=
     match order with
-    | [] => CDeserializeError
-    | AVResponse :: r =>
-      match dec_msg T resp j with Some v => CResponse v | None => dec_untagged r resp err j end
-    | AVError :: r =>
-      match dec_msg T err j with Some v => CError v | None => dec_untagged r resp err j end
+    | [] => WCDeserializeError
+    | WAVResponse :: r =>
+      match w_dec_msg T resp j with Some v => WCResponse v | None => w_dec_untagged r resp err j end
+    | WAVError :: r =>
+      match w_dec_msg T err j with Some v => WCError v | None => w_dec_untagged r resp err j end
     end.
 
-  Definition client_decode (wrapped : bool) (order : list api_variant) (resp err : msg) (j : json) : creply :=
-    if wrapped then dec_untagged order resp err j
-    else match dec_msg T resp j with Some v => CResponse v | None => CDeserializeError end.
+  Definition w_client_decode (wrapped : bool) (order : list w_api_variant) (resp err : w_msg) (j : w_json) : w_creply :=
+    if wrapped then w_dec_untagged order resp err j
+    else match w_dec_msg T resp j with Some v => WCResponse v | None => WCDeserializeError end.
 End Client.
 
 (* ------------------------------------------------------------------------------------------ *)
 (* one endpoint of the public API (generated: router, handler signature, gRPC service, client) *)
 (* ------------------------------------------------------------------------------------------ *)
-Record endpoint_spec := mk_endpoint {
-  ep_path : str;               (* Endpoint::X.path() *)
-  ep_req : msg;                (* the handler's request type *)
-  ep_resp : msg;               (* the gRPC method's reply type, serialised by parse_grpc_response *)
-  ep_cap : Z;                  (* warp::body::content_length_limit *)
-  ep_client_wrapped : bool     (* client decodes the reply as ApiResponse<T> (true) or as T (false) *)
+Record w_endpoint_spec := w_mk_endpoint {
+  w_ep_path : w_str;               (* Endpoint::X.path() *)
+  w_ep_req : w_msg;                (* the handler's request type *)
+  w_ep_resp : w_msg;               (* the gRPC method's reply type, serialised by parse_grpc_response *)
+  w_ep_cap : Z;                  (* warp::body::content_length_limit *)
+  w_ep_client_wrapped : bool     (* client decodes the reply as ApiResponse<T> (true) or as T (false) *)
 }.
